@@ -1,5 +1,5 @@
 // Package vctx stands in for package context. Done channels are model channels; cancellation and
-// Err are schedule points; deadlines run on the virtual clock.
+// Err are schedule points; deadlines run on the virtual clock. Race-mode discipline: see package vrt.
 package vctx
 
 import (
@@ -43,33 +43,51 @@ var (
 func Background() Context { return background }
 func TODO() Context       { return todo }
 
+const maxChildren = 16
+
 type cancelCtx struct {
 	parent   Context
 	done     *vchan.Chan[struct{}]
 	err      error
 	cause    error
-	children []*cancelCtx
+	children [maxChildren]*cancelCtx
+	nch      int
 	deadline time.Time
 	hasDl    bool
 	timer    *vrt.Timer
-	after    []func()
+	after    [4]func()
+	nafter   int
 }
 
+//go:norace
 func (c *cancelCtx) Deadline() (time.Time, bool) {
 	if c.hasDl {
 		return c.deadline, true
 	}
 	return c.parent.Deadline()
 }
+
+//go:norace
 func (c *cancelCtx) Done() *vchan.Chan[struct{}] { return c.done }
+
+//go:norace
 func (c *cancelCtx) Err() error {
 	vrt.Point("ctx.err", nil, c)
 	return c.err
 }
+
+//go:norace
 func (c *cancelCtx) Value(key any) any { return c.parent.Value(key) }
 func (c *cancelCtx) String() string    { return "vctx.cancelCtx" }
 
+// FireTimer implements vrt.Firer (deadline expiry).
+//
+//go:norace
+func (c *cancelCtx) FireTimer() { c.cancel(DeadlineExceeded, nil) }
+
 // Cancelled reports the state without a schedule point (oracles).
+//
+//go:norace
 func Cancelled(c Context) bool {
 	if cc := findCancel(c); cc != nil {
 		return cc.err != nil
@@ -77,6 +95,7 @@ func Cancelled(c Context) bool {
 	return false
 }
 
+//go:norace
 func (c *cancelCtx) cancel(err, cause error) {
 	if c.err != nil {
 		return
@@ -91,16 +110,19 @@ func (c *cancelCtx) cancel(err, cause error) {
 	if c.timer != nil {
 		vrt.StopTimer(c.timer)
 	}
-	for _, ch := range c.children {
-		ch.cancel(err, cause)
+	for i := 0; i < c.nch; i++ {
+		c.children[i].cancel(err, cause)
+		c.children[i] = nil
 	}
-	c.children = nil
-	for _, f := range c.after {
-		vrt.Go(f)
+	c.nch = 0
+	for i := 0; i < c.nafter; i++ {
+		vrt.Go(c.after[i])
+		c.after[i] = nil
 	}
-	c.after = nil
+	c.nafter = 0
 }
 
+//go:norace
 func findCancel(p Context) *cancelCtx {
 	for {
 		switch x := p.(type) {
@@ -108,14 +130,13 @@ func findCancel(p Context) *cancelCtx {
 			return x
 		case *valueCtx:
 			p = x.parent
-		case *withoutCancel:
-			return nil
 		default:
 			return nil
 		}
 	}
 }
 
+//go:norace
 func newCancel(parent Context) *cancelCtx {
 	if parent == nil {
 		panic("cannot create context from nil parent")
@@ -125,35 +146,49 @@ func newCancel(parent Context) *cancelCtx {
 		if pc.err != nil {
 			c.cancel(pc.err, pc.cause)
 		} else {
-			pc.children = append(pc.children, c)
+			if pc.nch >= maxChildren {
+				panic("vctx: too many child contexts")
+			}
+			pc.children[pc.nch] = c
+			pc.nch++
 		}
 	}
 	return c
 }
 
+//go:norace
+func (c *cancelCtx) userCancel() {
+	if vrt.Aborting() {
+		return
+	}
+	vrt.Point("ctx.cancel", nil, c)
+	c.cancel(Canceled, nil)
+}
+
+//go:norace
+func (c *cancelCtx) userCancelCause(cause error) {
+	if vrt.Aborting() {
+		return
+	}
+	vrt.Point("ctx.cancel", nil, c)
+	c.cancel(Canceled, cause)
+}
+
 // WithCancel mirrors context.WithCancel; the returned cancel is a schedule point.
+//
+//go:norace
 func WithCancel(parent Context) (Context, CancelFunc) {
 	c := newCancel(parent)
-	return c, func() {
-		if vrt.Aborting() {
-			return
-		}
-		vrt.Point("ctx.cancel", nil, c)
-		c.cancel(Canceled, nil)
-	}
+	return c, c.userCancel
 }
 
+//go:norace
 func WithCancelCause(parent Context) (Context, CancelCauseFunc) {
 	c := newCancel(parent)
-	return c, func(cause error) {
-		if vrt.Aborting() {
-			return
-		}
-		vrt.Point("ctx.cancel", nil, c)
-		c.cancel(Canceled, cause)
-	}
+	return c, c.userCancelCause
 }
 
+//go:norace
 func Cause(c Context) error {
 	if cc := findCancel(c); cc != nil {
 		vrt.Point("ctx.err", nil, cc)
@@ -163,34 +198,25 @@ func Cause(c Context) error {
 }
 
 // WithDeadline mirrors context.WithDeadline on the virtual clock.
+//
+//go:norace
 func WithDeadline(parent Context, d time.Time) (Context, CancelFunc) {
 	c := newCancel(parent)
 	if cur, ok := parent.Deadline(); ok && cur.Before(d) {
 		// parent expires first
-		return c, func() {
-			if vrt.Aborting() {
-				return
-			}
-			vrt.Point("ctx.cancel", nil, c)
-			c.cancel(Canceled, nil)
-		}
+		return c, c.userCancel
 	}
 	c.deadline, c.hasDl = d, true
 	dur := d.Sub(vtime.Now())
 	if dur <= 0 {
 		c.cancel(DeadlineExceeded, nil)
 	} else if c.err == nil {
-		c.timer = vrt.AddTimer(int64(dur), "ctx.deadline", func() { c.cancel(DeadlineExceeded, nil) })
+		c.timer = vrt.AddTimer(int64(dur), "ctx.deadline", c)
 	}
-	return c, func() {
-		if vrt.Aborting() {
-			return
-		}
-		vrt.Point("ctx.cancel", nil, c)
-		c.cancel(Canceled, nil)
-	}
+	return c, c.userCancel
 }
 
+//go:norace
 func WithTimeout(parent Context, timeout time.Duration) (Context, CancelFunc) {
 	return WithDeadline(parent, vtime.Now().Add(timeout))
 }
@@ -230,32 +256,52 @@ func (w *withoutCancel) Value(key any) any           { return w.parent.Value(key
 
 func WithoutCancel(parent Context) Context { return &withoutCancel{parent} }
 
+type afterStop struct {
+	cc      *cancelCtx
+	f       func()
+	stopped bool
+	ran     bool
+}
+
+func (a *afterStop) run() {
+	if a.stopped {
+		return
+	}
+	a.ran = true
+	a.f()
+}
+
+//go:norace
+func (a *afterStop) stop() bool {
+	vrt.Point("ctx.afterfunc.stop", nil, a.cc)
+	if a.ran || a.stopped {
+		return false
+	}
+	a.stopped = true
+	return true
+}
+
+func never() bool  { return false }
+func always() bool { return true }
+
 // AfterFunc mirrors context.AfterFunc.
+//
+//go:norace
 func AfterFunc(ctx Context, f func()) (stop func() bool) {
 	cc := findCancel(ctx)
 	if cc == nil {
-		return func() bool { return true }
+		return always
 	}
 	vrt.Point("ctx.afterfunc", nil, cc)
 	if cc.err != nil {
 		vrt.Go(f)
-		return func() bool { return false }
+		return never
 	}
-	stopped := false
-	ran := false
-	cc.after = append(cc.after, func() {
-		if stopped {
-			return
-		}
-		ran = true
-		f()
-	})
-	return func() bool {
-		vrt.Point("ctx.afterfunc.stop", nil, cc)
-		if ran || stopped {
-			return false
-		}
-		stopped = true
-		return true
+	a := &afterStop{cc: cc, f: f}
+	if cc.nafter >= len(cc.after) {
+		panic("vctx: too many AfterFunc registrations")
 	}
+	cc.after[cc.nafter] = a.run
+	cc.nafter++
+	return a.stop
 }
